@@ -60,13 +60,17 @@ func (p *C18) Gen(seed uint64, e int, tier string) *scen.Scenario {
 
 	bases := []string{lay.home, lay.cwd, "/home/u", "/home/user2", "/opt/x", "/opt/x/y", "/srv", "$SRCROOT", "$SRCROOT/internal"}
 	repls := []string{"~", "~u", "$X", "$Y", "@", "=v", "%"}
-	var added []string
+	var added, asked []string
 	addedRe := []string{}
 	queries := func() []string {
 		var qs []string
 		dirs := append([]string{}, bases...)
 		dirs = append(dirs, added...)
 		for k := r.Range(1, 4); k > 0; k-- {
+			if len(asked) > 0 && r.Chance(1, 3) {
+				qs = append(qs, scen.Pick(r, asked)) // the very same path string again, after whatever changed meanwhile
+				continue
+			}
 			d := scen.Pick(r, dirs)
 			if d == "/" {
 				d = ""
@@ -94,12 +98,14 @@ func (p *C18) Gen(seed uint64, e int, tier string) *scen.Scenario {
 				qs = append(qs, d+"2/f.go")
 			}
 		}
+		asked = append(asked, qs...)
 		return qs
 	}
 	sc.Setup = append(sc.Setup, scen.Op{Op: "new_root", R: 1, Name: "p", Named: true,
 		Opts: []scen.Op{{Kind: "writer", W: 1}, {Kind: "errwriter", W: 1}, {Kind: "level", Lvl: 8}, {Kind: scen.Pick(r, []string{"json", "color"}), B: []bool{r.Bool()}}}})
 	n := r.Range(2, 10)
 	tk := 0
+	saved := 0
 	for k := 0; k < n; k++ {
 		switch c := r.Intn(12); {
 		case c < 5:
@@ -119,6 +125,30 @@ func (p *C18) Gen(seed uint64, e int, tier string) *scen.Scenario {
 			sc.Setup = append(sc.Setup, scen.Op{Op: "remove_path_re", Name: scen.Pick(r, addedRe)})
 		case c < 10:
 			sc.Setup = append(sc.Setup, scen.Op{Op: scen.Pick(r, []string{"add_flags", "remove_flags"}), S: []string{scen.Pick(r, []string{"Lprivacypath", "Lprivacypathregexp"})}})
+		case c < 11:
+			// the flag changed for a while through SaveFlagsAndMod and its restore function
+			if saved > 0 && r.Bool() {
+				sc.Setup = append(sc.Setup, scen.Op{Op: "restore_flags"})
+				saved--
+			} else if r.Bool() {
+				sc.Setup = append(sc.Setup, scen.Op{Op: "save_flags", S: []string{scen.Pick(r, []string{"-Lprivacypath", "-Lprivacypath", "-Lprivacypathregexp", "Lprivacypath", "Lprivacypathregexp"})}})
+				saved++
+			} else {
+				// the whole idiom at once: defer SaveFlagsAndMod(...)() around some work, the same paths before, inside and after
+				qs := queries()
+				for _, q := range qs {
+					sc.Setup = append(sc.Setup, scen.Op{Op: "safety", Name: q})
+				}
+				sc.Setup = append(sc.Setup, scen.Op{Op: "save_flags", S: []string{scen.Pick(r, []string{"-Lprivacypath", "-Lprivacypath", "-Lprivacypathregexp", "Lprivacypath"})}})
+				for _, q := range qs {
+					sc.Setup = append(sc.Setup, scen.Op{Op: "safety", Name: q})
+				}
+				sc.Setup = append(sc.Setup, scen.Op{Op: "restore_flags"})
+				for _, q := range qs {
+					sc.Setup = append(sc.Setup, scen.Op{Op: "safety", Name: q})
+				}
+				continue
+			}
 		}
 		if r.Chance(2, 3) {
 			for _, q := range queries() {
@@ -219,6 +249,7 @@ func (p *C18) Check(sc *scen.Scenario, run *orch.Run, env *orch.Env) []orch.Viol
 	var res []string
 	// package defaults: the privacy flags are on; a testing-mode process switches the regexp flag off at start
 	privacy, privacyRe := true, sc.World.Mode != "testing"
+	var savedPrivacy [][2]bool
 	res = append(res, `/Volumes/[^/]+/`)
 
 	judge := func(how, q, got string) {
@@ -331,6 +362,30 @@ func (p *C18) Check(sc *scen.Scenario, run *orch.Run, env *orch.Env) []orch.Viol
 				case "Lprivacypathregexp":
 					privacyRe = op.Op == "add_flags"
 				}
+			}
+		case "save_flags":
+			// SaveFlagsAndMod(adding, removing...): additions first, then removals; the restore function brings both back
+			savedPrivacy = append(savedPrivacy, [2]bool{privacy, privacyRe})
+			for _, f := range op.S {
+				switch f {
+				case "Lprivacypath":
+					privacy = true
+				case "Lprivacypathregexp":
+					privacyRe = true
+				}
+			}
+			for _, f := range op.S {
+				switch f {
+				case "-Lprivacypath":
+					privacy = false
+				case "-Lprivacypathregexp":
+					privacyRe = false
+				}
+			}
+		case "restore_flags":
+			if n := len(savedPrivacy); n > 0 {
+				privacy, privacyRe = savedPrivacy[n-1][0], savedPrivacy[n-1][1]
+				savedPrivacy = savedPrivacy[:n-1]
 			}
 		case "safety":
 			var ret struct {
